@@ -41,6 +41,13 @@ def cases(tier, rng):
     for j in range(100 if tier == "quick" else 2000):
         a, b = rng.randrange(1, N), rng.randrange(1, N)
         yield {"k": "ec", "a": a, "b": b if j % 5 else a, "neg": j % 7 == 0, "k": "ec"}
+    for j in range(12 if tier == "quick" else 100):
+        a = rng.randrange(1, N)
+        yield {"k": "ecinf", "a": a, "form": j % 3, "n": rng.choice([0, N, 1, 2, N - 1, N + 1, 2 * N, 2 ** 256 - 1])}
+    for j in range(12 if tier == "quick" else 60):
+        # argument lengths the reference code refuses outright
+        yield {"k": "len", "what": ["vmsg", "vpk", "vsig", "smsg", "saux", "skey"][j % 6], "n": rng.choice([0, 1, 31, 33, 63, 64, 65]),
+               "key": "%064x" % rng.randrange(1, N), "msg": rand_hex(rng, 32), "aux": rand_hex(rng, 32)}
     for x in [0, 1, 2, 3, 4, 5, P - 1, P, P + 1, 2 ** 256 - 1] + [rng.getrandbits(256) for _ in range(60)]:
         yield {"k": "lift", "x": x}
 
@@ -96,6 +103,21 @@ def _case_ver(d):
     return _mutate(d, sig, pk)
 
 
+def _len_case(d):
+    import coincurve
+    sk = coincurve.PrivateKey(bytes.fromhex(d["key"]))
+    msg = bytes.fromhex(d["msg"]); aux = bytes.fromhex(d["aux"]); key = bytes.fromhex(d["key"])
+    sig = sk.sign_schnorr(msg, aux); pk = sk.public_key_xonly.format()
+    fit = lambda b: (b * 3)[:d["n"]]
+    w = d["what"]
+    if w in ("vmsg", "smsg"): msg = fit(msg)
+    elif w == "vpk": pk = fit(pk)
+    elif w == "vsig": sig = fit(sig)
+    elif w == "saux": aux = fit(aux)
+    elif w == "skey": key = (b"\x00" * 40 + key)[-d["n"]:] if d["n"] else b""
+    return msg, pk, sig, key, aux
+
+
 def _pt(hexkey_int):
     import coincurve
     b = coincurve.PrivateKey(hexkey_int.to_bytes(32, "big")).public_key.format(False)
@@ -125,6 +147,14 @@ def impl(d):
         return _show(schnorr.point_add(A, B)) + "|" + _show(schnorr.point_mul(A, d["b"]))
     if k == "lift":
         return _show(schnorr.lift_x(d["x"]))
+    if k == "ecinf":
+        A = _pt(d["a"]); ops = [(A, None), (None, A), (None, None)][d["form"]]
+        return _show(schnorr.point_add(*ops)) + "|" + _show(schnorr.point_mul(A, d["n"])) + "|" + _show(schnorr.point_mul(None, d["n"]))
+    if k == "len":
+        msg, pk, sig, key, aux = _len_case(d)
+        if d["what"][0] == "v":
+            return "1" if schnorr.schnorr_verify(msg, pk, sig) else "0"
+        return schnorr.schnorr_sign(msg, key, aux).hex()
 
 
 def model(d):
@@ -145,6 +175,14 @@ def model(d):
         return [sx("point_add", list(A), list(B)), sx("point_mul", list(A), d["b"])]
     if k == "lift":
         return sx("lift_x", d["x"])
+    if k == "ecinf":
+        A = list(_pt(d["a"])); I = Raw("INF"); ops = [(A, I), (I, A), (I, I)][d["form"]]
+        return [sx("point_add", *ops), sx("point_mul", A, d["n"]), sx("point_mul", I, d["n"])]
+    if k == "len":
+        msg, pk, sig, key, aux = _len_case(d)
+        if d["what"][0] == "v":
+            return sx("schnorr_verify", msg, pk, sig)
+        return sx("schnorr_sign", msg, key, aux)
 
 
 def spec(d):
